@@ -501,6 +501,16 @@ fn judge(p: &Plan, api: Api, tp: &TapePlan, o: &Obs, out: &mut RunOut, replay: &
             );
             return;
         }
+        (Res::Panic(pi), _) if pi.location == crate::monitor::LIVELOCK_MARK => {
+            out.viol("C11/unexpected-panic", sig(p, &format!("{:?}:{}", api, pi.location)), pi.message.clone(), replay());
+            out.viol(
+                "C19/error-swallowed",
+                sig(p, &format!("{:?}:rng-errors-never-surface", api)),
+                "the RNG returned an error 10000 times in a row during one call and the API never reported it".into(),
+                replay(),
+            );
+            return;
+        }
         (Res::Panic(pi), Some(_)) if panicking => {
             // documented panic on RNG failure
             let _ = pi;
